@@ -17,6 +17,7 @@ RULE = ("operations: one- and two-qubit parametric built-ins x a parameter-expre
         "assignments of the remaining symbols, free symbols, every split m = m1 + m2; circuits: all 2-operation circuits of a sub-alphabet. "
         "non-trivial = map binds at least one symbol the operation depends on")
 RULE += ' Also: one map object updated in place between binds (every history of 2-3 updates).'
+RULE += ' Round 6: partial maps as defaultdict / Counter / OrderedDict / ChainMap / dict subclass with __missing__; two distinct symbols that print alike in one operation.'
 RULE += ' Round 6: maps whose values mention symbols that are keys too (parameter shift, rescaling, swap, cycle, chain): simultaneous substitution is the reference.'
 RULE += ' Round 5: parameters containing bound variables (Sum index, Integral variable); non-real map values for gate operations.'
 ASSUMPTIONS = ["for maps whose values mention keys, 'substituting the same values' is read as SIMULTANEOUS substitution (the library's own bare-symbol lookup is simultaneous; a sequential order is not under the caller's control); the several-steps clause is only demanded where the steps do not feed each other", "matrices compared at two numeric assignments of the remaining symbols (entries are analytic in them)"]
@@ -340,6 +341,27 @@ def assume_case(case):
             for o0, o1 in zip(ops[:-1], bc.operations[:-1]):
                 if not np.allclose(num(o1.gate.matrix), num(o0.gate.matrix.subs(m, simultaneous=True)), atol=ATOL):
                     return {"ok": False, "msg": "%s symbols: fully bound %s differs from the substituted matrix" % (kind, o0), "sig": "assume:matrix", "ops": k}
+    # two DISTINCT symbols that print alike (two Dummy symbols of one name; a plain symbol next to one with assumptions) inside one operation / one parameter
+    twins = {"plain": (sympy.Symbol("phi"), sympy.Symbol("phi", real=True)), "real": (sympy.Symbol("phi", real=True), sympy.Symbol("phi", positive=True)), "positive": (sympy.Symbol("x", positive=True), sympy.Symbol("x")),
+             "dummy": (sympy.Dummy("phi"), sympy.Dummy("phi")), "integer": (sympy.Symbol("n", integer=True), sympy.Dummy("n"))}[kind]
+    p1, p2 = twins
+    for o0 in (C.MS(p1, p2)(0, 1), C.CPHASE(p1 + 2 * p2)(1, 0), C.U3(p1, 0.5, p2)(0), C.RY(p1 * p2).controlled(1)(0, 1), custom_definition("custom1p")(p2, p1)(0), C.MultiPhaseOperation((p1, p2))):
+        circ = C.Circuit([o0] if hasattr(o0, "gate") else [C.X(0), o0])
+        for target, what in ((o0, "operation"), (circ, "circuit")) + (((o0.gate, "gate"),) if hasattr(o0, "gate") else ()):
+            fs = list(target.free_symbols)
+            k += 1
+            if set(fs) != {p1, p2} or len(fs) != 2:
+                return {"ok": False, "msg": "%s symbols: %s %s depends on two distinct symbols that print alike (%r, %r) but reports the free symbols %r" % (kind, what, o0, p1, p2, fs), "sig": "assume:twins-free", "ops": k}
+            for m in ({p1: 0.3}, {p2: -1.2}, {p1: 0.3, p2: -1.2}):
+                b = target.bind(m)
+                k += 1
+                want = {p1, p2} - set(m)
+                if set(b.free_symbols) != want:
+                    return {"ok": False, "msg": "%s symbols: %s %s bound with %s reports the free symbols %r, expected %r" % (kind, what, o0, m, list(b.free_symbols), want), "sig": "assume:twins-bound-free", "ops": k}
+                got = list(b.params) if what != "circuit" else list(b.operations[-1].params)
+                exp_params = [expected_param(p, m) for p in o0.params]
+                if not all(same_expr(x, y) for x, y in zip(exp_params, got)):
+                    return {"ok": False, "msg": "%s symbols: %s %s bound with %s has parameters %s, substitution gives %s" % (kind, what, o0, m, got, exp_params), "sig": "assume:twins-param", "ops": k}
     return {"ok": True, "nt": kind != "plain", "ops": k, "out": kind}
 
 
@@ -439,7 +461,48 @@ def cross_map_case(case):
     return {"ok": True, "nt": True, "ops": k, "out": case["op"]["k"]}
 
 
-FUNCS = {"cross_maps": cross_map_case, "long_circuits": long_circuit_case, "map_histories": map_history_case, "assumption_symbols": assume_case, "operations": op_case, "refusals": refuse_case, "circuits": circuit_case}
+def map_kind_case(case):
+    """{'op': descriptor, 'items': [[key index, value name]...]}: the symbol map handed over as another Mapping kind (defaultdict, Counter, OrderedDict, ChainMap, MappingProxyType, a dict
+    subclass with __missing__): a PARTIAL map binds exactly its items - a symbol that is absent stays free whatever the mapping would invent for it - and the caller's mapping is not written to"""
+    import collections
+    import types
+    from orquestra.quantum import circuits as C
+
+    class Inventing(dict):
+        def __missing__(self, key):
+            return 7.0
+
+    op = mk_operation(case["op"])
+    is_gate = hasattr(op, "gate")
+    circ = C.Circuit([op] if is_gate else [C.X(0), op])
+    plain = {KEYS[i]: VALS[v] for i, v in case["items"]}
+    numeric_only = all(isinstance(v, (int, float)) for v in plain.values())
+    kinds = [("defaultdict(float)", lambda: collections.defaultdict(float, plain)), ("defaultdict(lambda: 1.5)", lambda: collections.defaultdict(lambda: 1.5, plain)), ("OrderedDict", lambda: collections.OrderedDict(plain)),
+             ("ChainMap", lambda: collections.ChainMap({}, dict(plain))), ("dict subclass with __missing__", lambda: Inventing(plain))]
+    if numeric_only:
+        kinds.append(("Counter", lambda: collections.Counter(plain)))
+    exp = [expected_param(p, plain) for p in op.params]
+    k = 0
+    for kname, mkm in kinds:
+        for target, what in ((op, "operation"), (circ, "circuit")) + (((op.gate, "gate"),) if is_gate else ()):
+            m = mkm()
+            keys_before = list(m.keys())
+            for rep in (1, 2):
+                try:
+                    b = target.bind(m)
+                except Exception as ex:  # noqa: BLE001
+                    return {"ok": False, "msg": "%s.bind with a %s raises %s: %s" % (what, kname, type(ex).__name__, str(ex)[:100]), "sig": "mapkind:raises", "ops": k}
+                k += 1
+                got = list(b.params) if what != "circuit" else list(b.operations[-1].params)
+                if len(got) != len(exp) or not all(same_expr(x, y) for x, y in zip(exp, got)):
+                    return {"ok": False, "msg": "%s.bind (call %d) with the partial map %s given as a %s: parameters %s, binding exactly its items gives %s" % (what, rep, {str(a): str(v) for a, v in plain.items()}, kname, got, exp),
+                            "sig": "mapkind:param", "ops": k, "expected": str(exp), "observed": str(got)}
+                if list(m.keys()) != keys_before:
+                    return {"ok": False, "msg": "%s.bind wrote to the caller's %s: keys %s became %s" % (what, kname, [str(x) for x in keys_before], [str(x) for x in m.keys()]), "sig": "mapkind:map-modified", "ops": k}
+    return {"ok": True, "nt": True, "ops": k, "out": case["op"]["k"]}
+
+
+FUNCS = {"map_kinds": map_kind_case, "cross_maps": cross_map_case, "long_circuits": long_circuit_case, "map_histories": map_history_case, "assumption_symbols": assume_case, "operations": op_case, "refusals": refuse_case, "circuits": circuit_case}
 
 
 def op_alphabet(thorough):
@@ -499,6 +562,9 @@ def run(run):
                         desc="circuits of 7 / 40 (thorough 130) operations over 12 symbols named x2, x10, x[3], x[12], beta_2, beta_10 ...: first-appearance order, 19 partial maps, two-step binds"))
     secs.append(Section("assumption_symbols", [{"kind": k} for k in ("plain", "real", "positive", "dummy", "integer")], assume_case, horizon=600, chunk=1,
                         desc="symbols with assumptions / Dummy symbols through gate.bind, operation.bind, Circuit.bind"))
+    mk_items = [[[1, "0.3"]], [[0, "0.3"]], [[2, "-1.2"], [3, "0.3"]], [[1, "e"]], [[0, "0"], [1, "0.3"]], []]
+    secs.append(Section("map_kinds", [{"op": o, "items": it} for o in hops for it in mk_items], map_kind_case, horizon=300, desc="partial maps given as defaultdict / Counter / OrderedDict / ChainMap / dict subclass "
+                        "with __missing__: exactly the items are bound, absent symbols stay free, the mapping is not written to"))
     xops = [o for o in ops if o["k"] != "mp" or "sum" not in o["p"]]
     xops = [o for o in xops if not any(p in ("sum", "int+a") for p in o.get("p", []))]
     secs.append(Section("cross_maps", [{"op": o, "maps": list(XMAPS)} for o in (xops if thorough else xops[::2] + xops[1::6])], cross_map_case, horizon=600, chunk=2,
